@@ -46,3 +46,11 @@ VARIANTS = [
     V("twin-zero-length-names", BI, "if self._round(ta) == self._round(tb):",
       "ta_q = self._round(ta)\n        tb_q = self._round(tb)\n        if ta_q == tb_q:", expect="silent"),
 ]
+
+VARIANTS += [
+    # session-4 repair: the unrepaired dyadic descent (no guard on the quantised midpoint)
+    V("dyadic-descent-without-guard", BI, "                if not interval._start < halfway < interval._end:", "                if False:", rule="R07.8"),
+    V("dyadic-descent-guard-one-sided", BI, "                if not interval._start < halfway < interval._end:", "                if not interval._start < halfway:", rule="R07.8"),
+    V("dyadic-descent-fallback-without-split", BI, "                    interval._split_exact(midway)\n                    break\n", "                    break\n", rule="R07.8"),
+    V("twin-dyadic-descent-guard-spelled-out", BI, "                if not interval._start < halfway < interval._end:", "                if halfway <= interval._start or halfway >= interval._end:", expect="silent"),
+]
